@@ -156,3 +156,24 @@ func edgeFact(pred func(f core.Fact, cd core.Cond) bool) func(b *ssa.BasicBlock,
 		return pred(core.FactOf(cd), cd)
 	}
 }
+
+// onlyPkgs returns a Cone stop-predicate that confines a call cone to the given module-relative
+// packages (the property's anchored packages): interface calls are resolved to every
+// implementation inside them; implementations elsewhere in the module (loggers, storage back
+// ends, mocks) are outside the property's mechanism and are not followed.
+func onlyPkgs(rels ...string) func(*ssa.Function) bool {
+	allowed := map[string]bool{}
+	for _, r := range rels {
+		allowed[core.PkgPath(r)] = true
+	}
+	return func(f *ssa.Function) bool {
+		root := f
+		for root.Parent() != nil {
+			root = root.Parent()
+		}
+		if root.Package() == nil {
+			return true
+		}
+		return !allowed[root.Package().Pkg.Path()]
+	}
+}
